@@ -18,8 +18,9 @@ import base64
 import dataclasses
 import re
 import types
-from datetime import date, datetime
+from datetime import date, datetime, time
 from typing import Any, Callable, TypeVar, Union, get_args, get_origin, get_type_hints
+from uuid import UUID
 
 import cattrs
 from cattrs.errors import BaseValidationError, ClassValidationError, IterableValidationError
@@ -293,11 +294,89 @@ def unstructure_date(data: date) -> str:
     return data.isoformat()
 
 
+def structure_time(data: str | time, _: type[time]) -> time:
+    """
+    Structure hook for time fields.
+
+    Handles OpenAPI format "time" which is ISO 8601 time string.
+
+    Args:
+        data: Either ISO 8601 time string or time object
+        _: Target type (time)
+
+    Returns:
+        time object
+
+    Raises:
+        ValueError: If string is not valid ISO 8601 time format
+    """
+    if isinstance(data, time):
+        return data
+    if isinstance(data, str):
+        return time.fromisoformat(data)
+    raise TypeError(f"Cannot convert {type(data)} to time")
+
+
+def unstructure_time(data: time) -> str:
+    """
+    Unstructure hook for time to ISO 8601 string.
+
+    Args:
+        data: time object
+
+    Returns:
+        ISO 8601 formatted time string (HH:MM:SS)
+    """
+    return data.isoformat()
+
+
+def structure_uuid(data: str | UUID, _: type[UUID]) -> UUID:
+    """
+    Structure hook for UUID fields.
+
+    Handles OpenAPI format "uuid" which is the hexadecimal string form of a UUID.
+
+    Args:
+        data: Either UUID string or UUID object
+        _: Target type (UUID)
+
+    Returns:
+        UUID object
+
+    Raises:
+        ValueError: If string is not a valid UUID
+    """
+    if isinstance(data, UUID):
+        return data
+    if isinstance(data, str):
+        return UUID(data)
+    raise TypeError(f"Cannot convert {type(data)} to UUID")
+
+
+def unstructure_uuid(data: UUID) -> str:
+    """
+    Unstructure hook for UUID to string.
+
+    Args:
+        data: UUID object
+
+    Returns:
+        Canonical hyphenated UUID string
+    """
+    return str(data)
+
+
 # Register datetime and date handling
 converter.register_structure_hook(datetime, structure_datetime)
 converter.register_unstructure_hook(datetime, unstructure_datetime)
 converter.register_structure_hook(date, structure_date)
 converter.register_unstructure_hook(date, unstructure_date)
+
+# Register time and UUID handling
+converter.register_structure_hook(time, structure_time)
+converter.register_unstructure_hook(time, unstructure_time)
+converter.register_structure_hook(UUID, structure_uuid)
+converter.register_unstructure_hook(UUID, unstructure_uuid)
 
 
 # =============================================================================
@@ -890,6 +969,10 @@ __all__ = [
     "unstructure_datetime",
     "structure_date",
     "unstructure_date",
+    "structure_time",
+    "unstructure_time",
+    "structure_uuid",
+    "unstructure_uuid",
     "camel_to_snake",
     "snake_to_camel",
 ]
